@@ -47,8 +47,9 @@ func c12NoMutationInDryRun(r *an.Run, m *runModel) {
 	reach := r.P.ReachableModuleFuncs(mainFn)
 	ext := an.ExternalCalls(reach)
 	classes := map[string]int{}
-	diffBrs, printBrs := m.optBranches("Diff"), m.optBranches("Print")
-	r.Check(len(diffBrs) > 0 && len(printBrs) > 0, short(m.run)+"|mode-branches", m.run.Pos(), "Run branches on opts.Diff (%d) and opts.Print (%d)", len(diffBrs), len(printBrs))
+	diffOn, printOn := m.hyp(map[string]bool{"Diff": true}, nil), m.hyp(map[string]bool{"Print": true}, nil)
+	nd, np := m.decides(diffOn), m.decides(printOn)
+	r.Check(nd > 0 && np > 0, short(m.run)+"|mode-branches", m.run.Pos(), "Run takes decisions that depend on opts.Diff (%d) and on opts.Print (%d), directly, through a boolean variable or through a predicate helper", nd, np)
 
 	// guardedSite: the call site executes only when neither --diff nor --print-only is set
 	var guardedSite func(site ssa.CallInstruction, depth int) (bool, string)
@@ -56,7 +57,7 @@ func c12NoMutationInDryRun(r *an.Run, m *runModel) {
 		g := site.Parent()
 		if g == m.run {
 			b := site.Block()
-			if unreachableWithout(b, edgesWhen(diffBrs, false)) && unreachableWithout(b, edgesWhen(printBrs, false)) {
+			if m.unreachableUnder(b, diffOn) && m.unreachableUnder(b, printOn) {
 				return true, ""
 			}
 			return false, fmt.Sprintf("the call at %s in mainCmd.Run is reachable with --diff or --print-only set", r.P.Pos(site.Pos()))
@@ -191,8 +192,8 @@ func c12Descriptions(r *an.Run, m *runModel) {
 		}
 	}
 	// call sites: only on the matched path, only in the diff / print arms
-	brs := an.BranchesOn(m.run, m.matched)
-	diffBrs, printBrs := m.optBranches("Diff"), m.optBranches("Print")
+	unmatched := m.hyp(nil, map[ssa.Value]bool{m.matched: false})
+	neither := m.hyp(map[string]bool{"Diff": false, "Print": false}, nil)
 	n := 0
 	for _, c := range an.Calls(m.run) {
 		sc := an.StaticCallee(c)
@@ -200,10 +201,9 @@ func c12Descriptions(r *an.Run, m *runModel) {
 			continue
 		}
 		n++
-		onMatched := unreachableWithout(c.Block(), edgesWhen(brs, true))
+		onMatched := m.unreachableUnder(c.Block(), unmatched)
 		r.Check(onMatched, short(m.run)+"|described-only-when-applied|"+an.TrimModule(an.CalleeName(c)), c.Pos(), "descriptions are printed only for files to which a change applied")
-		both := append(edgesWhen(diffBrs, true), edgesWhen(printBrs, true)...)
-		r.Check(unreachableWithout(c.Block(), both), short(m.run)+"|described-only-in-dry-run|"+an.TrimModule(an.CalleeName(c)), c.Pos(), "descriptions are printed only in the --diff / --print-only arms")
+		r.Check(m.unreachableUnder(c.Block(), neither), short(m.run)+"|described-only-in-dry-run|"+an.TrimModule(an.CalleeName(c)), c.Pos(), "descriptions are printed only in the --diff / --print-only arms")
 	}
 	r.Count("description call sites", n)
 	r.Min("description call sites", 2)
